@@ -1207,3 +1207,45 @@ def expiry_sweep_in_step(u: U):
                 "a cookie whose deadline has passed is handed to _delete_cookies by the sweep", witness={"key": k})
         u.check("C16.expiry.sweep_in_step.live_kept_on_heap", Implies(w > now, And(k not in deleted, _on_heap(h, w, k))),
                 "a cookie whose deadline lies ahead is kept, and its deadline stays on the heap", witness={"key": k})
+
+
+# ---------------------------------------------------------------------------------------------------------------
+# 8. clear_domain removes the cookies of a domain and of its sub-domains - and no others
+
+
+@unit("C16", "clear_domain", functions=[f"{MOD}:CookieJar.clear_domain", f"{MOD}:CookieJar.clear"], kind="bounded")
+def clear_domain(u: U):
+    """BOUND: one jar holding a cookie for each of seven domains (the target, a sub-domain, look-alikes that share only a
+    string suffix or prefix, an unrelated one, an IP address, a shared cookie without domain); targets example.com,
+    sub.example.com, com.  clear_domain(d) hands exactly the cookies whose domain domain-matches d (RFC 6265 5.1.3: equal,
+    or a suffix that starts at a label boundary; never for an IP address) to _delete_cookies - so that the requests to
+    every other site go on carrying what a reference cookie store would attach.  The matching predicate itself is proved
+    for all strings in C16.domain_match; this unit fixes which predicate clear_domain applies to which field."""
+    from pyvc import LoopSpec
+
+    target = ("example.com", "sub.example.com", "com")[u.choose(3, "target")]
+    domains = ["example.com", "sub.example.com", "myexample.com", "example.com.evil.org", "other.org", "10.0.0.1", ""]
+    cookies = {(d, "/"): {"n": {"domain": d, "path": "/"}} for d in domains}
+    deleted = []
+    dm = u.load(MOD, "CookieJar._is_domain_match")     # the real (static) predicate, run on the concrete strings
+    jar = mk_jar(u, fields={"_cookies": cookies, "_expirations": {}, "_expire_heap": []},
+                 methods={"_delete_cookies": lambda self, keys: deleted.extend(keys),
+                          "_is_domain_match": lambda self, domain, hostname: dm(domain, hostname)})
+    object.__setattr__(jar, "_o_real", (MOD, "CookieJar"))
+    f = u.load(MOD, "CookieJar.clear_domain")
+    u.default_loop_spec = LoopSpec(unroll=True, bound=16)
+    out = u.call(f, jar, target)
+    u.check("C16.clear_domain.total", out.ok, repr(out))
+    if not out.ok:
+        return
+
+    def spec(cookie_domain):
+        if cookie_domain == target:
+            return True
+        return cookie_domain.endswith("." + target) and not cookie_domain.replace(".", "").isdigit()
+
+    want = sorted((d, "/", "n") for d in domains if spec(d))
+    got = sorted(tuple(k) for k in deleted)
+    u.check("C16.clear_domain.exactly_the_domain_and_its_subdomains", got == want,
+            f"clear_domain({target!r}) removes {want}, got {got}: a look-alike domain (myexample.com for example.com) keeps "
+            "its cookies", witness={"target": target, "deleted": got})
